@@ -97,12 +97,13 @@ func recoverFile(info types.SegmentInfo, wf types.WritableFile, bufPool *sync.Po
 		return nil, err
 	}
 
-	if w.writer.indexStart > 0 {
-		// We recovered a sealed tail. We can't tell whether the process died
-		// before or after the fsync of the batch that sealed it - we may just have
-		// read it back from the OS cache. Nothing will ever write to (and so
-		// fsync) this file again once the WAL has rotated to the next segment, so
-		// make sure it is durable now.
+	if w.writer.writeOffset > 0 {
+		// We recovered committed batches, but we can't tell whether the process
+		// died before or after the fsync of the last one - we may just have read
+		// it back from the OS cache. The WAL is about to treat it as durable:
+		// truncations and rotations commit metadata that depends on it (and after
+		// a rotation nothing ever fsyncs this file again), so make sure it really
+		// is on disk now.
 		if err := w.wf.Sync(); err != nil {
 			return nil, err
 		}
